@@ -3,7 +3,7 @@ structural obligations on the live Lark rule table.  The grouping is produced in
 resolution, configured by a grammar string: no contract within reach can decide it (DESIGN §6)."""
 import time
 
-from checks.common import run_bounded
+from checks.common import guarded, run_bounded
 from vlib.report import Ctx
 
 LEVEL = "exploration"
@@ -33,7 +33,14 @@ def ground_obligations(ctx: Ctx) -> None:
     for alias, exp in shape[:6]:
         ops_ok &= len(exp) == 3 and exp[0] == "expression" and exp[2] == "expression"
         seen.append(pat(exp[1]))
-    ops_ok &= seen == ["(?i:O)", "∨", "(?i:X)", "⊻", "(?i:U)", "∧"] and shape[6][1] == ["expression", "expression"]
+    # the operator terminals are compared as LANGUAGES (over all of Unicode), not as regular-expression texts
+    from checks import tokenlang
+    for got, want in zip(seen, ["[Oo]", "∨", "[Xx]", "⊻", "[Uu]", "∧"]):
+        try:
+            ops_ok &= got is not None and tokenlang.distinguish(got, 0, want, 0) is None
+        except tokenlang.NotTranslatable:
+            ops_ok = False
+    ops_ok &= len(seen) == 6 and shape[6][1] == ["expression", "expression"]
     ctx.obligation("grammar/G2-operator-alternatives-are-binary-with-case-insensitive-letter-or-MaKo-symbol",
                    "discharged" if ops_ok else "undecided", backend="ground check on the live Lark rule table",
                    detail=str(seen))
@@ -58,7 +65,7 @@ def run(ctx: Ctx) -> None:
     ctx.explanation = ("bounded check of the parser's contract against an independent precedence-climbing reference "
                        "parser; plus five ground obligations on the live rule table")
     ctx.trust("A-LARK-RESOLVE (only for the structural argument)", "bounded: never counted as proved")
-    ground_obligations(ctx)
+    guarded(ctx, "C01", lambda: ground_obligations(ctx), what="ground obligations")
     # token languages of the grammar, decided over all of Unicode (sufficient-condition obligations, see checks/tokenlang.py)
     from checks import tokenlang
     tokenlang.obligations(ctx, grammars=("condition",))
